@@ -137,9 +137,11 @@ func nameAgreement(c *Ctx, r *Report, irf *ssa.Function) {
 	rule := "C12/peg-phase"
 	var ins, look []ssa.Value
 	for _, ci := range findCalls(irf, "pegnet.Pegnet.insertRate") {
-		a := ci.Common().Args[3]
-		if !sliceHas(a, func(v ssa.Value) bool { return isCallTo(v, "String") }) {
-			ins = append(ins, a)
+		cands := c.stringArgs(ci)
+		for _, a := range cands {
+			if !sliceHas(a, func(v ssa.Value) bool { return isCallTo(v, "String") }) {
+				ins = append(ins, a)
+			}
 		}
 	}
 	// the same statement issued by InsertRates itself: the token is the string-typed parameter
@@ -246,9 +248,14 @@ func bandTables(c *Ctx, r *Report, e *eraCtx) {
 			_ = s
 			// observed band constants: symbolic products spr*k seen in comparisons
 			ks := map[string]bool{}
-			for v, a := range t.Root.val {
-				if bo, ok := v.(*ssa.BinOp); ok && bo.Op == token.MUL && a.K == ASym && strings.HasPrefix(a.Sym, "spr*") {
-					ks[strings.TrimPrefix(a.Sym, "spr*")] = true
+			for _, fs := range s.memo { // the root and every helper analysed with it (the band test may have been split off)
+				if fs == nil {
+					continue
+				}
+				for v, a := range fs.val {
+					if bo, ok := v.(*ssa.BinOp); ok && bo.Op == token.MUL && a.K == ASym && strings.HasPrefix(a.Sym, "spr*") {
+						ks[strings.TrimPrefix(a.Sym, "spr*")] = true
+					}
 				}
 			}
 			var kl []string
@@ -375,7 +382,9 @@ func winnerTable(c *Ctx, r *Report, e *eraCtx, rule string) {
 				for _, lc := range t.CallsTo("ApplyTransactionBatchesInHolding") {
 					okOrder := false
 					for _, ic := range t.CallsTo("InsertRates") {
-						if execReaches(t.Root, ic.Instr, lc.Instr) {
+						// either call may sit in a stage split off from SyncBlock: compare the calls that stand for them
+						ia, la := c.liftSite(ic.Instr, sb), c.liftSite(lc.Instr, sb)
+						if ia != nil && la != nil && ia != la && execReaches(t.Root, ia, la) {
 							okOrder = true
 						}
 					}
@@ -401,9 +410,7 @@ func rateInsertTokens(c *Ctx, t *Trace) []ssa.Value {
 		}
 		switch lc.Short {
 		case "insertRate":
-			if a := lc.Instr.Common().Args; len(a) > 3 {
-				out = append(out, a[3])
-			}
+			out = append(out, c.stringArgs(lc.Instr)...)
 		case "Exec", "ExecContext":
 			if stmtLabel(c, lc.Instr) != "INSERT pn_rate" {
 				continue
@@ -542,4 +549,22 @@ func ruleRatesReadComplete(c *Ctx, r *Report, rule string) {
 	if n == 0 {
 		r.viol(rule, "rate readers", "-", "no loop over result rows filling a rate map found in package pegnet")
 	}
+}
+
+// stringArgs: the string-typed arguments of a call, and the string fields of struct arguments the caller fills in.
+func (c *Ctx) stringArgs(ci ssa.CallInstruction) []ssa.Value {
+	var cands []ssa.Value
+	for _, a := range ci.Common().Args {
+		if b, ok := a.Type().Underlying().(*types.Basic); ok && b.Kind() == types.String {
+			cands = append(cands, a)
+		}
+		if stt, ok := a.Type().Underlying().(*types.Struct); ok {
+			for k := 0; k < stt.NumFields(); k++ {
+				if b, ok := stt.Field(k).Type().Underlying().(*types.Basic); ok && b.Kind() == types.String {
+					cands = append(cands, c.structFieldSources(a, k, 0)...)
+				}
+			}
+		}
+	}
+	return cands
 }
